@@ -420,7 +420,7 @@ class TokenizerHarness(Harness):
 register(TokenizerHarness())
 
 TOKENS = ["x", "<b>", "</b>", "<i>", "</i>", "<u>", "</u>", "<c.loud.red>", "<c.bg_blue.yellow>", "</c>", "<v Bob>", "</v>", "<lang en>", "</lang>",
-          "<ruby>", "</ruby>", "<rt>", "</rt>", "<00:00:01.500>", "y\nz", "&amp;", "&lt;"]
+          "<ruby>", "</ruby>", "<rt>", "</rt>", "<00:00:01.500>", "y\nz", "&amp;", "&lt;", "<00:00:01>"]
 
 
 def ref_tree(seq, begin):
@@ -445,6 +445,8 @@ def ref_tree(seq, begin):
         stack.pop()
       else:
         ok = False
+    elif t == "<00:00:01>":
+      pass   # malformed timestamp tag: ignored (a warning), never an error
     elif t.startswith("<0"):
       ts = Fraction(3, 2)
     else:
@@ -499,12 +501,12 @@ class CueTreeHarness(Harness):
   properties = ("C11", "C18")
   functions = ("vtt.reader:_parse_cue_text", "vtt.reader:_TextCueParser._handle_starttag", "vtt.reader:_TextCueParser._handle_endtag",
                "vtt.reader:_TextCueParser._handle_string", "vtt.reader:_TextCueParser._handle_ts")
-  assumptions = ("token sequences are chosen by selector variables from the 22-entry token menu (exhaustive over the bound)",
+  assumptions = ("token sequences are chosen by selector variables from the 23-entry token menu (exhaustive over the bound)",
                  "for sequences that are not well nested (end tag not matching the open element, rt outside ruby) only totality and "
                  "the text are asserted")
   outside = ("nesting deeper than the sequence bound", "class names other than red / bg_blue / yellow")
   required_witnesses = ("nested", "ruby", "timestamp", "entity")
-  bounds = {"quick": "all sequences of <= 4 tokens over a 22-entry menu (b i u c.class v lang ruby rt, end tags, inline timestamp, "
+  bounds = {"quick": "all sequences of <= 4 tokens over a 23-entry menu (b i u c.class v lang ruby rt, end tags, inline timestamp, "
                      "multi-line text, entities)", "thorough": "<= 5 tokens"}
   budget_s = {"quick": 280, "thorough": 1500}
   validate_models = 2
